@@ -95,3 +95,175 @@ Check C07_symbol_consumes_at_most_20_bytes : forall upd (w : lw),
   T24 <= r_range (l_rc w) < T32 -> tabs_ok (ds_tabs (l_ds w)) ->
   s_pos (l_src (snd (run_sym upd w))) <= s_pos (l_src w) + MAX_REQUIRED_INPUT.
 Print Assumptions C07_symbol_consumes_at_most_20_bytes.
+
+From LZ Require Import Model.Lzma2 Model.Xz Model.Stream Proofs.StreamLatch Proofs.NoPanicLoops Proofs.NoPanicLzma2 Proofs.NoPanicStream Proofs.NoPanicXz Proofs.FuelAdequacy.
+
+(* whole entry point, ARBITRARY input bytes, any fragmentation / faults / limits / options / memlimit: the only conceivable panic is the model artefact PFuel (fuel exhausted)   [proved as lzma_decompress_no_panic in Proofs/NoPanicLoops.v] *)
+Theorem C07_lzma_decompress_never_panics :
+  forall (fuel : BinNums.positive) (o : Lzma.options) (w : Io.io),
+  NoPanic.SrcBytes (Io.i_src w) ->
+  let (o0, w') := Lzma.lzma_decompress fuel o w in
+  match o0 with
+  | Prelude.Panicked p =>
+      p = Prelude.PFuel (BinNums.Npos (BinNums.xO (BinNums.xI (BinNums.xO BinNums.xH)))) /\
+      NoPanic.SrcBytes (Io.i_src w')
+  | _ => NoPanic.SrcBytes (Io.i_src w')
+  end.
+Proof. exact (@lzma_decompress_no_panic). Qed.
+Check C07_lzma_decompress_never_panics :
+  forall (fuel : BinNums.positive) (o : Lzma.options) (w : Io.io),
+  NoPanic.SrcBytes (Io.i_src w) ->
+  let (o0, w') := Lzma.lzma_decompress fuel o w in
+  match o0 with
+  | Prelude.Panicked p =>
+      p = Prelude.PFuel (BinNums.Npos (BinNums.xO (BinNums.xI (BinNums.xO BinNums.xH)))) /\
+      NoPanic.SrcBytes (Io.i_src w')
+  | _ => NoPanic.SrcBytes (Io.i_src w')
+  end.
+Print Assumptions C07_lzma_decompress_never_panics.
+
+(* termination: with fuel >= 16913 * (input length + 21) the run is never Panicked at all - the decoder terminates on every input (potential: remaining bytes * 2^32 + range)   [proved as lzma_decompress_total in Proofs/FuelAdequacy.v] *)
+Theorem C07_lzma_decompress_total :
+  forall (fuel : BinNums.positive) (o : Lzma.options) (w : Io.io),
+  NoPanic.SrcBytes (Io.i_src w) ->
+  BinNat.N.le
+    (BinNat.N.mul
+       (BinNums.Npos
+          (BinNums.xI
+             (BinNums.xO
+                (BinNums.xO
+                   (BinNums.xO
+                      (BinNums.xI
+                         (BinNums.xO
+                            (BinNums.xO
+                               (BinNums.xO
+                                  (BinNums.xO
+                                     (BinNums.xI (BinNums.xO (BinNums.xO (BinNums.xO (BinNums.xO BinNums.xH)))))))))))))))
+       (BinNat.N.add (Prelude.nlen (Io.s_rest (Io.i_src w)))
+          (BinNums.Npos (BinNums.xI (BinNums.xO (BinNums.xI (BinNums.xO BinNums.xH))))))) 
+    (BinNums.Npos fuel) ->
+  let (o0, w') := Lzma.lzma_decompress fuel o w in
+  match o0 with
+  | Prelude.Panicked _ => False
+  | _ => NoPanic.SrcBytes (Io.i_src w')
+  end.
+Proof. exact (@lzma_decompress_total). Qed.
+Check C07_lzma_decompress_total :
+  forall (fuel : BinNums.positive) (o : Lzma.options) (w : Io.io),
+  NoPanic.SrcBytes (Io.i_src w) ->
+  BinNat.N.le
+    (BinNat.N.mul
+       (BinNums.Npos
+          (BinNums.xI
+             (BinNums.xO
+                (BinNums.xO
+                   (BinNums.xO
+                      (BinNums.xI
+                         (BinNums.xO
+                            (BinNums.xO
+                               (BinNums.xO
+                                  (BinNums.xO
+                                     (BinNums.xI (BinNums.xO (BinNums.xO (BinNums.xO (BinNums.xO BinNums.xH)))))))))))))))
+       (BinNat.N.add (Prelude.nlen (Io.s_rest (Io.i_src w)))
+          (BinNums.Npos (BinNums.xI (BinNums.xO (BinNums.xI (BinNums.xO BinNums.xH))))))) 
+    (BinNums.Npos fuel) ->
+  let (o0, w') := Lzma.lzma_decompress fuel o w in
+  match o0 with
+  | Prelude.Panicked _ => False
+  | _ => NoPanic.SrcBytes (Io.i_src w')
+  end.
+Print Assumptions C07_lzma_decompress_total.
+
+(* raw LzmaDecoder with any accepted parameters, reusable afterwards   [proved as lzma_decoder_decompress_no_panic in Proofs/NoPanicLoops.v] *)
+Theorem C07_raw_decoder_never_panics :
+  forall (fuel : BinNums.positive) (dec : Lzma.lzma_decoder) (w : Io.io),
+  DecInv dec ->
+  NoPanic.SrcBytes (Io.i_src w) ->
+  let (o, p0) := Lzma.lzma_decoder_decompress fuel dec w in
+  match o with
+  | Prelude.Panicked p =>
+      let (dec', w') := p0 in
+      p = Prelude.PFuel (BinNums.Npos (BinNums.xO (BinNums.xI (BinNums.xO BinNums.xH)))) /\
+      DecInv dec' /\ NoPanic.SrcBytes (Io.i_src w')
+  | _ => let (dec', w') := p0 in DecInv dec' /\ NoPanic.SrcBytes (Io.i_src w')
+  end.
+Proof. exact (@lzma_decoder_decompress_no_panic). Qed.
+Check C07_raw_decoder_never_panics :
+  forall (fuel : BinNums.positive) (dec : Lzma.lzma_decoder) (w : Io.io),
+  DecInv dec ->
+  NoPanic.SrcBytes (Io.i_src w) ->
+  let (o, p0) := Lzma.lzma_decoder_decompress fuel dec w in
+  match o with
+  | Prelude.Panicked p =>
+      let (dec', w') := p0 in
+      p = Prelude.PFuel (BinNums.Npos (BinNums.xO (BinNums.xI (BinNums.xO BinNums.xH)))) /\
+      DecInv dec' /\ NoPanic.SrcBytes (Io.i_src w')
+  | _ => let (dec', w') := p0 in DecInv dec' /\ NoPanic.SrcBytes (Io.i_src w')
+  end.
+Print Assumptions C07_raw_decoder_never_panics.
+
+(* LZMA2 entry point   [proved as lzma2_decompress_top_no_panic in Proofs/NoPanicLzma2.v] *)
+Theorem C07_lzma2_never_panics :
+  forall PB : BinNums.N -> Prop,
+  (forall b : BinNums.N,
+   BinNat.N.lt b
+     (BinNums.Npos
+        (BinNums.xO
+           (BinNums.xO (BinNums.xO (BinNums.xO (BinNums.xO (BinNums.xO (BinNums.xO (BinNums.xO BinNums.xH))))))))) ->
+   PB b) ->
+  forall (fuel : BinNums.positive) (io0 : Io.io),
+  NoPanic.SrcBytes (Io.i_src io0) ->
+  SnkBytes PB (Io.i_snk io0) ->
+  let (o, w') := lzma2_decompress_top fuel io0 in
+  match o with
+  | Prelude.Panicked p =>
+      (p = Prelude.PFuel (BinNums.Npos (BinNums.xO (BinNums.xI (BinNums.xO BinNums.xH)))) \/
+       p = Prelude.PFuel (BinNums.Npos (BinNums.xO (BinNums.xO (BinNums.xI (BinNums.xO BinNums.xH)))))) /\
+      NoPanic.SrcBytes (Io.i_src w') /\ SnkBytes PB (Io.i_snk w')
+  | _ => NoPanic.SrcBytes (Io.i_src w') /\ SnkBytes PB (Io.i_snk w')
+  end.
+Proof. exact (@lzma2_decompress_top_no_panic). Qed.
+Check C07_lzma2_never_panics :
+  forall PB : BinNums.N -> Prop,
+  (forall b : BinNums.N,
+   BinNat.N.lt b
+     (BinNums.Npos
+        (BinNums.xO
+           (BinNums.xO (BinNums.xO (BinNums.xO (BinNums.xO (BinNums.xO (BinNums.xO (BinNums.xO BinNums.xH))))))))) ->
+   PB b) ->
+  forall (fuel : BinNums.positive) (io0 : Io.io),
+  NoPanic.SrcBytes (Io.i_src io0) ->
+  SnkBytes PB (Io.i_snk io0) ->
+  let (o, w') := lzma2_decompress_top fuel io0 in
+  match o with
+  | Prelude.Panicked p =>
+      (p = Prelude.PFuel (BinNums.Npos (BinNums.xO (BinNums.xI (BinNums.xO BinNums.xH)))) \/
+       p = Prelude.PFuel (BinNums.Npos (BinNums.xO (BinNums.xO (BinNums.xI (BinNums.xO BinNums.xH)))))) /\
+      NoPanic.SrcBytes (Io.i_src w') /\ SnkBytes PB (Io.i_snk w')
+  | _ => NoPanic.SrcBytes (Io.i_src w') /\ SnkBytes PB (Io.i_snk w')
+  end.
+Print Assumptions C07_lzma2_never_panics.
+
+(* XZ entry point, arbitrary CRC functions   [proved as xz_decompress_no_panic in Proofs/NoPanicXz.v] *)
+Theorem C07_xz_never_panics :
+  forall (crc32 crc64 : list BinNums.N -> BinNums.N) (fuel : BinNums.positive),
+  m_safe (fun _ : unit => True) (xz_decompress crc32 crc64 fuel).
+Proof. exact (@xz_decompress_no_panic). Qed.
+Check C07_xz_never_panics :
+  forall (crc32 crc64 : list BinNums.N -> BinNums.N) (fuel : BinNums.positive),
+  m_safe (fun _ : unit => True) (xz_decompress crc32 crc64 fuel).
+Print Assumptions C07_xz_never_panics.
+
+(* streaming decoder: any sequence of write / flush calls followed by finish   [proved as stream_never_panics in Proofs/NoPanicStream.v] *)
+Theorem C07_stream_never_panics :
+  forall (o : Lzma.options) (k : Io.snk) (cs : list call),
+  List.Forall call_bytes cs ->
+  List.Forall cres_fuel_only (fst (run_calls (stream_new o k) cs)) /\
+  fuel_only (fst (stream_finish (snd (run_calls (stream_new o k) cs)))).
+Proof. exact (@stream_never_panics). Qed.
+Check C07_stream_never_panics :
+  forall (o : Lzma.options) (k : Io.snk) (cs : list call),
+  List.Forall call_bytes cs ->
+  List.Forall cres_fuel_only (fst (run_calls (stream_new o k) cs)) /\
+  fuel_only (fst (stream_finish (snd (run_calls (stream_new o k) cs)))).
+Print Assumptions C07_stream_never_panics.
